@@ -364,10 +364,7 @@ def shard(ctx: Ctx) -> None:
     if ctx.shard == 0:
         en = enumerated()
         for case in en:
-            try:
-                run(case)
-            except Failure as f:
-                ctx.fail(f)
+            ctx.attempt(case, run, case)
         stt.exhaustive_domains["every class x operand position x outlier list, on direct/text routes; SDK routes"] = len(en)
     n = 1500 if ctx.tier == "quick" else 10000
     ctx.search(st_random(), run, n, name="c16-random")
